@@ -76,7 +76,7 @@ def hash_variants(rng, big):
     return vs
 
 
-def e2e_variants(rng, types, nshard, nexec, exh=False):
+def e2e_variants(rng, types, nshard, nexec, exh=False, par_p=0.2, par_copies=1500):
     vs = []
     single = len(types) == 1
     keyed = ['reshuffle', 'reduce', 'cogroup'] + (['fold'] if single and types[0] in FOLDABLE else [])
@@ -92,6 +92,22 @@ def e2e_variants(rng, types, nshard, nexec, exh=False):
         ops = rng.choice(shapes)()
         vs.append({'kind': 'e2e', 'seed': rng.randrange(1 << 30), 'exec': e, 'nsrc': nshard, 'ops': ops, 'batch': rng.choice([1, 3, 7, 64]),
                    'machcomb': e == 'bigmachine' and rng.random() < 0.4, 'copies': 1 if exh else rng.choice([1, 2, 3])})
+    # a narrower key prefix than the source's, directly and with the source reused as the Result of an earlier invocation
+    if len(types) > 1:
+        for e in nexec[:1] + (['bigmachine'] if rng.random() < 0.5 else []):
+            for reuse in (False, True):
+                ops = [{'op': 'reshuffle', 'a': 0, 'b': 0}] + ([rep()] if rng.random() < 0.5 else [])
+                vs.append({'kind': 'e2e', 'seed': rng.randrange(1 << 30), 'exec': e, 'nsrc': nshard, 'ops': ops, 'batch': rng.choice([1, 3, 7, 64]),
+                           'machcomb': False, 'copies': rng.choice([1, 2]), 'pfx': rng.randint(1, len(types) - 1), 'reuse': reuse})
+    elif not exh and rng.random() < 0.3:
+        # the full key, with the source reused as a Result
+        vs.append({'kind': 'e2e', 'seed': rng.randrange(1 << 30), 'exec': rng.choice(nexec), 'nsrc': nshard, 'ops': [kop(), rep()], 'batch': rng.choice([1, 7, 64]),
+                   'machcomb': False, 'copies': rng.choice([1, 2]), 'reuse': True})
+    # many producer tasks running concurrently in one process (local executor with Parallelism > 1), many rows:
+    # Repartition's function is called from all of them at once
+    if not exh and rng.random() < par_p:
+        vs.append({'kind': 'e2e', 'seed': rng.randrange(1 << 30), 'exec': 'local', 'nsrc': 8, 'ops': [rep(), rep()], 'batch': 64,
+                   'machcomb': False, 'copies': par_copies, 'par': 8})
     # Reshard from a different producer count
     nsrc = rng.choice([x for x in (1, 2, 3, 5) if x != nshard])
     vs.append({'kind': 'e2e', 'seed': rng.randrange(1 << 30), 'exec': 'local', 'nsrc': nsrc, 'ops': [{'op': 'reshard', 'a': 0, 'b': 0}],
